@@ -149,6 +149,7 @@ type Stats struct {
 	SelfTestMism   int            `json:"selftest_mismatches"`
 	FidelityWorlds int            `json:"fidelity_worlds"`
 	FidelityMism   int            `json:"fidelity_mismatches"`
+	FidelityMsgs   []string       `json:"fidelity_messages,omitempty"`
 	Violations     []Replay       `json:"violations"`
 	WallS          float64        `json:"wall_s"`
 	nt             map[string]bool
@@ -553,13 +554,13 @@ func (e *Env) sampleChecks(w *World, args []string, c *Case) {
 		return
 	}
 	e.Stats.Counters["sampled_cases"]++
-	if w != nil {
+	if w != nil && len(w.Web) == 0 { // the untouched binary has no virtual web to talk to
 		e.Stats.FidelityWorlds++
 		if msg := Fidelity(e.Bins, w, args); msg != "" {
 			e.Stats.FidelityMism++
-			if len(e.Stats.Samples) < 6 {
-				e.Stats.Samples = append(e.Stats.Samples, map[string]any{"fidelity_mismatch": msg, "args": args, "world": w})
-			}
+			wb, _ := json.Marshal(w)
+			e.Stats.FidelityMsgs = append(e.Stats.FidelityMsgs, fmt.Sprintf("%s | args=%v | world=%s", msg, args, clip(wb)))
+			DebugDump("fidelity", &c.Runs[0].Spec, nil)
 		}
 	}
 	var specs []simrt.Spec
